@@ -42,7 +42,7 @@ TABLE = {
     "Perturb_c06_spec_thorough": dict(BASE, MaxStmts=4, MaxRich="= 1", MaxVar=9, UnitKinds="SweepUnits", ConKinds="Empty", SpecKinds="AllSpec", DeclV="DeclAll", UseV="UseAll",
                                       FormatV="FormatAll", CompV="CompAll", TbindV="TbindAll", PKinds="KMut", NameChoices="Set1", EndForms="Set1", Contains="FALSE", RichOnly="TRUE", DumpMod=19),
     "Perturb_c06_sim": dict(SIM, PKinds="KMut", MaxEdits=3),
-    "Perturb_c15_quick": dict(BASE, PKinds="KSent", MaxEdits=2),
+    "Perturb_c15_quick": dict(BASE, PKinds="KSent", MaxEdits=2, LabelStmts="TRUE", DumpMod=3),
     "Perturb_c15_thorough": dict(BASE, PKinds="KSent", MaxEdits=3, MaxStmts=4),
     "Perturb_c15_sim": dict(SIM, PKinds="KSentCmt", MaxEdits=4),
 }
